@@ -954,6 +954,28 @@ class Engine:
             out[name] = _model_val(v)
         return out
 
+    def diverse_models(self, extra_cond=True, n=4, bits=3):
+        """Up to n different models of the path condition (each on a dyadic lattice if possible), each differing from
+        the earlier ones in at least one input - used to pick a witness on which a candidate replays."""
+        out, block = [], []
+        for _ in range(n):
+            cond = z3.And(z3bool(extra_cond), *block) if block else z3bool(extra_cond)
+            m = self.dyadic_model(cond, bits=bits)
+            if m is None:
+                ok, m = self.feasible(cond)
+                if not ok:
+                    break
+            out.append(m)
+            diff = []
+            for name, a in self.inputs:
+                v = m.eval(self.atom_z3(a), model_completion=True)
+                diff.append(self.atom_z3(a) != v)
+            block.append(z3.Or(diff) if diff else z3.BoolVal(False))
+            # push towards genuinely different shapes: at least two inputs must change next time
+            if len(diff) >= 2:
+                block.append(z3.Sum([z3.If(d, 1, 0) for d in diff]) >= 2)
+        return out
+
     def dyadic_model(self, extra_cond, bits=12):
         """Try to find a model of path-cond and extra_cond with every input on the lattice k/2^bits."""
         cons = [z3bool(extra_cond)]
